@@ -78,6 +78,9 @@ Decision(nodes, i, indent, loose) ==
         base == IF IsTrailer(nd) THEN Trailing(nd)
                 ELSE IF nd.k = "gcomment" THEN "v"
                 ELSE IF NonTrailerRule = "newline" THEN "v"
+                \* a call without a block keeps one space inside a single-line element (repair 1cc2d8c: its Go
+                \* expression ends where the next token of the line begins)
+                ELSE IF nd.k = "call" /\ ~indent /\ WsNodeAfter(nd) THEN "h"
                 ELSE IF ~indent \/ ~WsNodeAfter(nd) THEN "" ELSE "v"
         last == i = Len(nodes) /\ ~WsNodeAfter(nd)
         nextBlock == i < Len(nodes) /\ ~WsNodeAfter(nd) /\ IsBlockNode(nodes[i + 1], loose)
